@@ -663,6 +663,10 @@ pub fn gen_c15(seed: u64) -> Scenario {
             if r.chance(1, 2) {
                 ops.push(Op::Decode { cid: r.usize(ncont), fault: None, slot: s });
             } else {
+                if r.chance(1, 6) {
+                    ops.push(Op::ResolveLocal { dirs: vec![0, 1], slot: s });
+                    continue;
+                }
                 let tz = match r.below(5) {
                     0 => TzArg::Lit("localtime".into()),
                     1 => TzArg::Desc { spec: gen_rule(&mut r, false, true, None), style: r.below(32) as u8, lpad: String::new(), rpad: String::new() },
@@ -704,7 +708,13 @@ pub fn gen_c15(seed: u64) -> Scenario {
                 _ => match r.below(4) {
                     0 => Op::Share { slot: r.usize(3), pool: r.usize(2) },
                     1 => Op::CloneZ { z: ZRef::S(r.usize(2)), slot: r.usize(4) },
-                    2 => Op::Resolve { tz: TzArg::Lit(r.pick(&names).to_string()), dirs: vec![0, 1], slot: r.usize(4) },
+                    2 => {
+                        if r.chance(1, 3) {
+                            Op::ResolveLocal { dirs: vec![0, 1], slot: r.usize(4) }
+                        } else {
+                            Op::Resolve { tz: TzArg::Lit(r.pick(&names).to_string()), dirs: vec![0, 1], slot: r.usize(4) }
+                        }
+                    }
                     _ => Op::Decode { cid: r.usize(ncont), fault: None, slot: r.usize(4) },
                 },
             });
